@@ -90,7 +90,7 @@ func Run(ctx *core.Ctx) {
 	// M3, side by side
 	var fam []*Unit
 	for i, u := range sites {
-		if ctx.Thorough() || i%6 == 0 {
+		if ctx.Thorough() || i%8 == 0 {
 			fam = append(fam, u)
 		}
 	}
